@@ -559,7 +559,10 @@ fn run_c20(args: &Args) -> i32 {
     }
 
     if exit == 0 {
-        if let Err(detail) = c20::golden::static_matches_heap() {
+        let r = c20::golden::check_digests()
+            .map(|_| ())
+            .and_then(|_| c20::golden::static_matches_heap());
+        if let Err(detail) = r {
             let _ = std::fs::create_dir_all(&replay_dir);
             let path = replay_dir.join(format!("C20-{seed}-static-vs-heap.json"));
             let _ = std::fs::write(
@@ -790,7 +793,10 @@ fn run_replay(args: &Args) -> i32 {
                 }
             }
         }
-        "C20-static-vs-heap" => match c20::golden::static_matches_heap() {
+        "C20-static-vs-heap" => match c20::golden::check_digests()
+            .map(|_| ())
+            .and_then(|_| c20::golden::static_matches_heap())
+        {
             Ok(()) => {
                 println!("replay of {path}: static and heap zones agree");
                 0
